@@ -45,6 +45,17 @@ S.update({
  "agent4-C18": "Ahbm burst queue replaced by a linear 8-slot array FIFO that rewinds only when drained: a read burst left partly consumed followed by a write burst through the same channel stores to units[8] and indexes wildly afterwards",
  "agent4-C19": "vectored-interrupt target (address, context bit) moved from two atomics into a plain struct 'ordered by the pending flag': the DSP thread's read for request k races with the host thread's write for request k+1; needs IRQ 14 routed to the vectored line",
 })
+
+S.update({
+ "agent5-A-btdmp": "audio transmit queue as a 16-word ring; Skip takes a frame with one 4-byte copy assuming an even head: after a transmit with exactly one word queued the head is odd, and a fast-forwarded frame at head 15 reads past the ring and drops the word at position 0",
+ "agent5-B-apbp-host": "SetSemaphore calls the handler after unlocking and semaphore_mutex becomes non-recursive; MaskSemaphore (not in the diff) still calls the handler under the lock: a host semaphore handler that calls back into the semaphore API during an unmask self-deadlocks",
+ "agent5-C-miu": "effective data pages cached in MemoryInterfaceUnit and refreshed on XPAGE/YPAGE/ZPAGE writes but not on a PAGEMODE write: after leaving paging mode 1 the paged accessors and guest accesses keep using the mode-1 page while the absolute accessors use the true cell",
+ "agent5-D-banks": "banke's cfgi/cfgj exchange moved into helpers; SwapCfgj swaps stepj0 with stepi0b in 16-bit step mode: banke with both Cfgi and Cfgj flags and stp16 = 1 applied twice does not restore stepi0/stepi0b/stepj0",
+ "agent5-E-stack": "retic rewritten as ContextRestore(); reti(c): the condition is tested a second time on the RESTORED (interrupted code's) flags; a conditional retic whose condition holds on the handler's flags but not on the saved ones switches the context back without returning",
+ "agent5-F-dma": "dimension stepping moved into Channel::Advance and Start() no longer zeroes the counters: counter2 stays at size2 after a transfer, so a later transfer on the same channel with SIZE2 >= 2 starts its outer dimension partway and skips the trailing slabs",
+ "agent5-G-icu": "ICU::Trigger works line by line; the vectored target is taken from the highest bit of ALL raised irqs instead of the highest vectored-enabled one: a software trigger raising a vectored irq together with a higher unrouted irq enters the wrong vector with the wrong context-switch bit",
+ "agent5-H-runloop": "idle state kept across Run calls (dropped when pc moves or a request is latched): if the host rewrites the instruction under the parked pc between two Run calls the next Run(n >= 2) fast-forwards instead of executing it",
+})
 root = os.path.join(os.path.dirname(os.path.abspath(__file__)), "..", "seeded")
 for k, v in S.items():
     p = os.path.join(root, k, "meta.json")
